@@ -8,6 +8,7 @@ T: (a) Gen/GrayConst.v regenerated from kaira/modulations/utils.py (special case
        evaluated in Coq on the tables each modulator publishes (exact rationals of the float32 coordinates).
 S: the same laws checked directly on the implementation in Python (independent of the model).
 """
+import os
 from fractions import Fraction
 
 from common import REPO, cN, cQ, clist, cnat, import_kaira
@@ -229,6 +230,63 @@ def run(ctx):
         if len(pts) >= 4:
             ctx.nontriv((cls, cfg))
         py_table_oracle(ctx, cls, cfg, pts, labs, gray, unit)
+    # the published table of a configuration does not depend on which other modulators were built earlier in the process:
+    # fresh interpreters build the catalogue in other orders (largest first; each Gray configuration first) and must publish the same tables
+    import json as _json
+    import subprocess as _sp
+    import sys as _sys
+    main_tab = {"%s|%s" % (cls, cfg): ([[float(a), float(b_)] for a, b_ in pts], labs) for cls, cfg, m, pts, labs, gray, unit in tables}
+    script = (
+        "import sys, json; sys.path.insert(0, %r); sys.path.insert(0, %r)\n"
+        "import io, contextlib\n"
+        "from props.c14 import catalogue, table_of\n"
+        "import kaira.modulations as M\n"
+        "cat = catalogue(M, %r)\n"
+        "order = json.loads(sys.argv[1])\n"
+        "out = {}\n"
+        "for i in order:\n"
+        "    cls, cfg, mk, gray, unit = cat[i]\n"
+        "    try:\n"
+        "        pts, labs = table_of(mk(), cls)\n"
+        "    except Exception as ex:\n"
+        "        out[cls + '|' + cfg] = ('ERR', type(ex).__name__ + ': ' + str(ex)[:80])\n"
+        "        continue\n"
+        "    out[cls + '|' + cfg] = ([[float(a), float(b)] for a, b in pts], labs)\n"
+        "print('TABLES' + json.dumps(out))\n") % (REPO, os.path.join(os.path.dirname(os.path.dirname(os.path.abspath(__file__)))), quick)
+    n_cat = len(cat)
+    orders = [list(range(n_cat - 1, -1, -1))]
+    big_gray = [i for i, c_ in enumerate(cat) if c_[3] and ("order=64" in c_[1] or "order=32" in c_[1] or "order=16" in c_[1])]
+    for i in (big_gray if not quick else big_gray[:: max(1, len(big_gray) // 5)]):
+        orders.append([i] + [j for j in range(n_cat) if j != i][: 6])
+    for od in orders:
+        try:
+            pr = _sp.run([_sys.executable, "-W", "ignore", "-c", script, _json.dumps(od)], capture_output=True, text=True, timeout=600, env=dict(os.environ, PYTHONPATH=REPO))
+            line = [l for l in pr.stdout.splitlines() if l.startswith("TABLES")]
+            sub = _json.loads(line[-1][6:]) if line else None
+        except Exception as ex:
+            sub = None
+            ctx.note("construction-order subprocess failed: %s" % str(ex)[:80])
+        if sub is None:
+            ctx.broken.append("construction-order check could not run (subprocess gave no tables): %s" % (pr.stderr[-200:] if 'pr' in dir() else ""))
+            break
+        ctx.count("construction-orders")
+        for kname, (p2, l2) in sub.items():
+            p1, l1 = main_tab[kname]
+            if p2 == "ERR":
+                cls_, cfg_ = kname.split("|")
+                ctx.violation("C14/%s/construction-order" % cls_, "%s(%s) cannot be built (%s) when the catalogue is built in the order starting with %s(%s); built in ascending order it publishes a valid table" % (
+                    cls_, cfg_, l2, cat[od[0]][0], cat[od[0]][1]), {"class": cls_, "config": cfg_, "built_first": "%s(%s)" % (cat[od[0]][0], cat[od[0]][1])})
+                break
+            if l1 != l2 or any(abs(a[0] - b_[0]) > 1e-6 or abs(a[1] - b_[1]) > 1e-6 for a, b_ in zip(p1, p2)):
+                cls_, cfg_ = kname.split("|")
+                first = "%s(%s)" % (cat[od[0]][0], cat[od[0]][1])
+                ctx.violation("C14/%s/construction-order" % cls_, "%s(%s) publishes a different table when %s is the first modulator built in the process (labels %s... vs %s...)" % (
+                    cls_, cfg_, first, l2[:3], l1[:3]), {"class": cls_, "config": cfg_, "built_first": first})
+                pts2 = [(Fraction(a), Fraction(b_)) for a, b_ in p2]
+                gray_ = [c_[3] for c_ in cat if c_[0] == cls_ and c_[1] == cfg_][0]
+                unit_ = [c_[4] for c_ in cat if c_[0] == cls_ and c_[1] == cfg_][0]
+                py_table_oracle(ctx, cls_, cfg_, pts2, l2, gray_, unit_)
+                break
     if ok:
         exprs = []
         for cls, cfg, m, pts, labs, gray, unit in tables:
